@@ -713,3 +713,59 @@ def replay_copy_term_exhaustion(viol):
     with open(path, "w") as f:
         json.dump(rec, f, indent=1)
     return rec
+
+
+INSTR_EXH_PROGRAM = """
+strs(Acc) :- S = "%s", strs([S|Acc]).
+strc(Acc) :- S = f(Acc, g(1,2,3,4,5,6,7,8), h(Acc)), strc([S|Acc]).
+main1 :- catch(strs([]), error(resource_error(memory), _), true), write(recovered), nl.
+main2 :- catch(strc([]), error(resource_error(memory), _), true), write(recovered), nl.
+""" % ("abcdefghij" * 100)
+
+
+def _run_limited(exe, program, goal, limit_kb, timeout):
+    import resource
+    os.makedirs(os.path.join(BIN_DIR, "tmp"), exist_ok=True)
+    pl = os.path.join(BIN_DIR, "tmp", "lim_%d.pl" % os.getpid())
+    with open(pl, "w") as f:
+        f.write(program)
+
+    def lim():
+        resource.setrlimit(resource.RLIMIT_AS, (limit_kb * 1024, limit_kb * 1024))
+    env = dict(os.environ)
+    env["MALLOC_ARENA_MAX"] = "1"
+    try:
+        p = subprocess.run([exe, "-f", "--no-add-history", pl, "-g", goal], capture_output=True, text=True,
+                           timeout=timeout, stdin=subprocess.DEVNULL, preexec_fn=lim, env=env)
+        out = p.stdout.strip().split("\n")[-1] if p.stdout.strip() else ""
+        return out, p.returncode, p.stderr[-300:]
+    except subprocess.TimeoutExpired:
+        return "<timeout %ds>" % timeout, -9, ""
+    finally:
+        try:
+            os.unlink(pl)
+        except OSError:
+            pass
+
+
+def replay_instruction_exhaustion(viol):
+    """a clause body that allocates (string literal / structures) in a loop under an address-space
+    limit: the resource error raised inside the put_* instruction must reach catch/3"""
+    os.makedirs(os.path.join(REPLAY_DIR, "C30"), exist_ok=True)
+    path = os.path.join(REPLAY_DIR, "C30", "instruction_exhaustion.json")
+    rec = {"engine": "prolog-exhaustion", "property": "C30", "program": INSTR_EXH_PROGRAM, "model": viol,
+           "path": path, "reproduced": False, "limit_kb": 400000, "runs": []}
+    exe = build_binary()
+    if not exe:
+        rec["why"] = "building scryer-prolog from the working tree failed"
+    else:
+        for goal in ("main1, halt", "main2, halt"):
+            out, rc, err = _run_limited(exe, INSTR_EXH_PROGRAM, goal, rec["limit_kb"], 240)
+            rec["runs"].append({"goal": goal, "output": out, "returncode": rc, "stderr_tail": err})
+            if out != "recovered":
+                rec["reproduced"] = True
+        if not rec["reproduced"]:
+            rec["why"] = "both goals recovered after the caught resource error"
+    with open(path, "w") as f:
+        json.dump(rec, f, indent=1)
+    return rec
